@@ -381,7 +381,38 @@ func (r *UnifiedMemoryModelRegistry) RemoveEndpoint(ctx context.Context, endpoin
 	// Remove endpoint from all unified models
 	r.detachEndpointLocked(endpointURL, func(string) bool { return true })
 
+	// The unifier keeps its own record of which endpoint serves which model. Tell it too, or the next
+	// listing of another endpoint that shares a model brings the removed endpoint back as a source.
+	r.forgetEndpointInUnifierLocked(ctx, endpointURL)
+
 	return nil
+}
+
+// forgetEndpointInUnifierLocked drops everything the unifier attributes to an endpoint. A unifier that
+// manages endpoints itself is asked directly; any other one is handed an empty listing for the endpoint,
+// which is how it is told that an endpoint no longer has models. Callers hold unificationMutex.
+func (r *UnifiedMemoryModelRegistry) forgetEndpointInUnifierLocked(ctx context.Context, endpointURL string) {
+	ctx = context.WithoutCancel(ctx)
+
+	if remover, ok := r.unifier.(interface {
+		RemoveEndpoint(ctx context.Context, endpointURL string) error
+	}); ok {
+		if err := remover.RemoveEndpoint(ctx, endpointURL); err != nil {
+			r.logger.Error("Failed to remove endpoint from unifier", err)
+		}
+		return
+	}
+
+	endpoint, exists := r.endpoints.Load(endpointURL)
+	if !exists {
+		endpoint = &domain.Endpoint{
+			URLString: endpointURL,
+			Name:      endpointURL,
+		}
+	}
+	if _, err := r.unifier.UnifyModels(ctx, []*domain.ModelInfo{}, endpoint); err != nil {
+		r.logger.ErrorWithEndpoint(endpoint.Name, "Failed to clear unified models of removed endpoint", err)
+	}
 }
 
 // GetHealthyEndpointsForModel returns healthy endpoints that have a specific model
